@@ -368,6 +368,12 @@ def r12(ctx):
         for x in expr_walk(e):
             if x[0] == "field" and x[1] == ("param", "self") and x[2] in ("class1", "class2", "class3"):
                 reads.add(x[2])
+    cb = prog.body("master::request::Classes::any")
+    cs_ = ctx.sym(cb)
+    cex = [e for _, _, _, e in ret_sites(cb, cs_)] + [x for g in ctx.gi(cb).all_guards() for x in g.exprs()]
+    c0 = any(mentions(e, lambda x: x[0] == "field" and x[2] == "class0") for e in cex)
+    ev = bool(call_sites(cb, r"EventClasses::any$"))
+    ctx.check(c0 and ev, "Classes::any:class0+events", "Classes::any consults class0 and the event classes", cb.where(line=cb.line), bad_detail="Classes::any consults class0: %s, events.any(): %s - a configuration naming only the ignored part counts as 'no classes' (its integrity poll / scan is never run)" % (c0, ev))
     ctx.check(reads == {"class1", "class2", "class3"}, "EventClasses::any:all-three", "any() consults %s" % sorted(reads), ab.where(line=ab.line), bad_detail="EventClasses::any() consults only %s: with just the missing class enabled no unsolicited response is ever produced" % sorted(reads))
 
 
